@@ -212,4 +212,38 @@ theorem mul_128x64_spec (a b : Nat) (ha : a < 3402823669209384634633746074317682
     clear ha hab e1 e2
     omega
 
+/-- `mul_reduce`: subtract `z2 · M`; the value becomes `z0 + z1·2^64 + z2·c` -/
+theorem mul_reduce_spec (z0 z1 z2 : Nat) (h0 : z0 < 18446744073709551616)
+    (h1 : z1 < 18446744073709551616) (h2 : z2 < 18446744073709551616) :
+    ∃ r0 r1 r2, mul_reduce z0 z1 z2 = (r0, r1, r2) ∧
+      r0 < 18446744073709551616 ∧ r1 < 18446744073709551616 ∧ r2 ≤ 1 ∧
+      r0 + r1 * 18446744073709551616 + r2 * 340282366920938463463374607431768211456
+        = z0 + z1 * 18446744073709551616 + z2 * 49478023249919 ∧
+      mul_reduce_ok z0 z1 z2 = true := by
+  obtain ⟨q0, q1, q2, hq, hq0, hq1, hq2, hqv, hqok⟩ := mul_by_modulus_spec z2 h2
+  have hge : val3 (q0, q1, q2) ≤ val3 (z0, z1, z2) := by
+    rw [hqv, val3_mk]; omega
+  obtain ⟨r0, r1, r2, hr, hr0, hr1, hr2, hrv, hrok⟩ :=
+    sub_192x192_spec z0 z1 z2 q0 q1 q2 h0 h1 h2 hq0 hq1 hq2 hge
+  rw [hqv, val3_mk, val3_mk] at hrv
+  refine ⟨r0, r1, r2, ?_, hr0, hr1, ?_, ?_, ?_⟩
+  · unfold mul_reduce
+    dsimp only
+    unfold mul_reduce.s_r
+    rw [hq]
+    unfold mul_reduce.s_q0 mul_reduce.s_q1 mul_reduce.s_q2 mul_reduce.s_r_1
+    dsimp only
+    rw [hr]
+    rfl
+  · clear hq hr hrok hqok hge; omega
+  · clear hq hr hrok hqok hge; omega
+  · unfold mul_reduce_ok
+    dsimp only
+    unfold mul_reduce.s_r
+    rw [hq]
+    unfold mul_reduce.s_q0 mul_reduce.s_q1 mul_reduce.s_q2
+    dsimp only
+    rw [hqok, hrok]
+    rfl
+
 end WinterProofs.F128L
